@@ -16,7 +16,12 @@ pub struct Rng {
 /// by Knuth and H. W. Lewis.
 impl Rng {
     pub fn new(seed: u64) -> Self {
-        Rng { seed }
+        // Reduce the seed into the generator's state space. This yields the
+        // same sequence (the LCG step is taken modulo MODULUS anyway) but keeps
+        // the multiplication from overflowing and RND(0) inside [0, 1).
+        Rng {
+            seed: seed % MODULUS,
+        }
     }
 
     pub fn random(&mut self) -> f64 {
